@@ -63,17 +63,18 @@ theorem rne_scaled {num den c A U : Nat} (hd : 0 < den) (hc : 0 < c) (hA : A = n
 
 /-! ## the scaled specification of `roundPos` -/
 
-/-- `roundPos n d = (m, e)` described with `k = e + 1074`, `A = n * 2^1074`, `U = d * 2^k`. -/
-structure PosSpec (n d m : Nat) (e : Int) (k : Nat) : Prop where
-  hk : e = (k : Int) - 1074
+/-- `roundPos n d = (m, e)` described with `k = e + O`, `A = n * 2^O`, `U = d * 2^k` (`O = 1074`, kept as a
+parameter so that no tactic ever evaluates `2^1074`). -/
+structure PosSpec (O n d m : Nat) (e : Int) (k : Nat) : Prop where
+  hk : e = (k : Int) - (O : Int)
   m_le : m ≤ 2 ^ 53
   m_ge : 0 < k → 2 ^ 52 ≤ m
-  lower : 0 < k → 2 ^ 52 * (d * 2 ^ k) ≤ n * 2 ^ 1074
-  upper : n * 2 ^ 1074 < 2 ^ 53 * (d * 2 ^ k)
-  half_lo : 2 * (m * (d * 2 ^ k)) ≤ 2 * (n * 2 ^ 1074) + d * 2 ^ k
-  half_hi : 2 * (n * 2 ^ 1074) ≤ 2 * (m * (d * 2 ^ k)) + d * 2 ^ k
-  tie : (2 * (m * (d * 2 ^ k)) = 2 * (n * 2 ^ 1074) + d * 2 ^ k ∨
-         2 * (n * 2 ^ 1074) = 2 * (m * (d * 2 ^ k)) + d * 2 ^ k) → m % 2 = 0
+  lower : 0 < k → 2 ^ 52 * (d * 2 ^ k) ≤ n * 2 ^ O
+  upper : n * 2 ^ O < 2 ^ 53 * (d * 2 ^ k)
+  half_lo : 2 * (m * (d * 2 ^ k)) ≤ 2 * (n * 2 ^ O) + d * 2 ^ k
+  half_hi : 2 * (n * 2 ^ O) ≤ 2 * (m * (d * 2 ^ k)) + d * 2 ^ k
+  tie : (2 * (m * (d * 2 ^ k)) = 2 * (n * 2 ^ O) + d * 2 ^ k ∨
+         2 * (n * 2 ^ O) = 2 * (m * (d * 2 ^ k)) + d * 2 ^ k) → m % 2 = 0
 
 /-- numerator and denominator of the rounding step of `roundPos` are `A = n * 2^O` and `U = d * 2^k` up to a common
 factor (`O` the offset, `k = e + O`). -/
@@ -91,7 +92,7 @@ theorem scaled_coeffs (O : Nat) (e : Int) (k : Nat) (hk : e = (k : Int) - (O : I
     rw [hkk, Nat.pow_add, Nat.mul_assoc]
 
 theorem roundPos_posSpec (n d : Nat) (hn : 0 < n) (hd : 0 < d) :
-    ∃ k, PosSpec n d (roundPos n d).1 (roundPos n d).2 k := by
+    ∃ k, PosSpec 1074 n d (roundPos n d).1 (roundPos n d).2 k := by
   obtain ⟨hlo, hhi⟩ := ratLog2_spec' n d hn hd
   rw [roundPos_eq]
   simp only
@@ -125,7 +126,7 @@ theorem roundPos_posSpec (n d : Nat) (hn : 0 < n) (hd : 0 < d) :
     · exact hd
     · exact Nat.mul_pos hd (two_pow_pos' _)
   obtain ⟨s1, s2, s3, s4, s5⟩ := rne_scaled hden hc hA hU'
-  refine ⟨k, hk, ?_, ?_, hlower, hupper, s1, s2, s3⟩
+  refine ⟨k, ⟨by omega, ?_, ?_, hlower, hupper, s1, s2, s3⟩⟩
   · exact s5 _ (Nat.le_of_lt hupper)
   · intro hkpos
     exact s4 _ (hlower hkpos)
